@@ -28,3 +28,19 @@
         let q: f64 = kani::any(); kani::assume(q >= 0.0 && q <= 1.0);
         if let Some(x) = view.quantile(q) { assert!(x >= mn && x <= mx); }
     }
+    #[kani::proof]
+    #[kani::unwind(4)]
+    fn c10_search_rank_monotone() {
+        let (cs, mn, mx, w) = two_centroids();
+        let view = TDigestView { min: mn, max: mx, centroids: &cs, centroids_weight: w };
+        let a: f64 = kani::any(); let b: f64 = kani::any(); kani::assume(a.is_finite() && b.is_finite() && a <= b);
+        if let (Some(ra), Some(rb)) = (view.rank(a), view.rank(b)) { assert!(ra <= rb); }
+    }
+    #[kani::proof]
+    #[kani::unwind(4)]
+    fn c10_search_quantile_monotone() {
+        let (cs, mn, mx, w) = two_centroids();
+        let view = TDigestView { min: mn, max: mx, centroids: &cs, centroids_weight: w };
+        let a: f64 = kani::any(); let b: f64 = kani::any(); kani::assume(a >= 0.0 && a <= b && b <= 1.0);
+        if let (Some(qa), Some(qb)) = (view.quantile(a), view.quantile(b)) { assert!(qa <= qb); }
+    }
